@@ -2,12 +2,17 @@ from pyvc.verify import Unit
 from contracts import fidelity as F
 from contracts import headervd as H
 from contracts import acct as A
+from contracts import dr as D
 
 
 def units(tier):
     us = [Unit(F.Reopened, {'script': s}) for s in sorted(F.SCRIPTS)]
     us += [Unit(F.ReopenedUDF, {'script': s}) for s in sorted(F.UDF_SCRIPTS)]
     us += [Unit(H.VDCopy), Unit(H.AddToPtrSize, {'remove': False}), Unit(H.AddToPtrSize, {'remove': True})]
+    # edits rely on the cached per-child positions / indices being rebuilt from the edit point on, whatever they held before
+    us += [Unit(D.RecalcStep)] + [Unit(D.RecalcWhole, {'n': 3, 'index': i}) for i in (0, 1, 2)]
+    # and on a removed link being exactly the record named (links with equal names in different directories, data moving afterwards)
+    us += [Unit(F.Mastered, {'script': 'joliet-same-name-links'}), Unit(F.Reopened, {'script': 'joliet-same-name-links'})]
     return us
 
 
